@@ -11,7 +11,7 @@ CLAIMS = {
         text="Bounded symbolic model checking of the real znx_normalize / vec_znx_normalize_base2k / big / range code: "
              "every k in 1..62 for the primitive and a k set for the limb loop, limb counts 0..3(4) in all orderings, all data "
              "values |a|<=2^62 symbolic, against an exact 128-bit digit/carry specification; in-place, strides, padding and "
-             "input-untouched included. The solver decides all values inside the box; shapes outside the box are not claimed.",
+             "input-untouched included; the limb loop additionally for every (res_size, a_size) <= 10 with k symbolic and the per-limb primitive kept uninterpreted (the primitive itself being decided for every k), plus long dropped-limb chains bit-precisely. The solver decides all values inside the box; shapes outside the box are not claimed.",
         note="cbmc 6.11 + goto-cc; malloc never fails; module table from the real fill_virtual_table with CPU detection "
              "replaced by a flag; |carry_in| <= 2^(63-k) for the primitive",
         technique="CBMC bounded model checking (SAT) of the real C code, shapes enumerated, data symbolic; native ASan replay of counterexamples",
@@ -20,7 +20,7 @@ CLAIMS = {
         text="Bounded symbolic model checking of every vec_znx_* / vec_znx_big_* element-wise entry point through the public wrappers "
              "and the real dispatch table (both CPU flags): limb counts 0..3(4) in all orderings, three stride combinations, N in {2,4,8}, all "
              "64-bit data symbolic; asserts limb-wise result with zero-extension/truncation, that padding and limbs past res_size keep "
-             "their previous contents and that sources are bit-identical. Shapes outside the box are not claimed.",
+             "their previous contents and that sources are bit-identical; an in-place slice (res==a, incl. rotate/automorphism with symbolic p) pins zero-extension / truncation of in-place calls. Shapes outside the box are not claimed.",
         note="cbmc 6.11 + goto-cc + shim/immintrin.h for the AVX units; exactly-sized heap buffers; malloc never fails; table builders not run",
         technique="CBMC bounded model checking (SAT) of the real C code incl. AVX units through an intrinsics shim, shapes enumerated, data symbolic; native ASan replay",
         ref="DESIGN.md 4/C08"),
@@ -36,7 +36,7 @@ CLAIMS = {
     "C13": dict(
         text="Bounded symbolic model checking of every supported aliasing pattern of the integer entry points (res==a, res==b, res==a==b for "
              "add/sub incl. big variants; res==a for copy/negate/rotate/automorphism/normalize/big normalize) against the same limb-wise "
-             "specification that pins the out-of-place call, for limb counts 0..3(4) in all orderings, both dispatch flags, all data symbolic.",
+             "specification that pins the out-of-place call, for limb counts 0..3(4) in all orderings, both dispatch flags, all data symbolic; pointwise products (reim, reim4, cplx; mul and addmul; ref and FMA) with r==a and r==b as exact real polynomials equal to the definition.",
         note="cbmc 6.11; CBMC's ISO-C memcpy-overlap assertion for dst==src self copies is ignored (values are asserted instead); "
              "floating-point products / inverse DFT aliasing are decided by the FFT/NTT families where listed in evidence",
         technique="CBMC bounded model checking (SAT) of the real C code with aliased exactly-sized buffers; native ASan replay",
@@ -141,14 +141,14 @@ CLAIMS = {
     "C15": dict(
         text="(1) three/four-call histories f(M1,P1); f(M2,P2); [f(M1,P2);] f(M1,P1) through every CBMC-executable *_simple caching entry point against a freshly initialised "
              "table, one parameter changed at a time: outputs compared as uninterpreted terms (equal terms => equal bits), cross-checked by z3 QF_UF; (2) integer entry points with "
-             "nondeterministic previous contents of outputs: result is a function of the inputs only; (3) DFT-space entry points at buffer offsets 0/8/24.",
+             "nondeterministic previous contents of outputs: result is a function of the inputs only; (3) DFT-space entry points at buffer offsets 0/8/24 (extents) and the product pipelines at N=16 with scratch buffers 8/24/56 bytes past a 64-byte boundary (values: same exact polynomial).",
         note="cbmc 6.11 symex + vcalg UF domain + z3; histories of length <= 4; reim/cplx (i)fft_simple not executable symbolically (builder casts pointers through integers)",
         technique="CBMC symbolic execution, exported VC compared in an uninterpreted-function domain (hash-consed terms, z3 QF_UF cross-check); CBMC SAT for the integer entry points; native replay",
         ref="DESIGN.md 4/C15"),
     "C18": dict(
         text="Every source operand (whole allocation incl. stride padding), prepared scalar/matrix, the MODULE, its virtual table and precomputed objects are snapshotted and "
              "compared after every public entry point (fft64/ntt120, ref/AVX) over the C08/C11 shape boxes, with and without aliasing of other arguments; plus the x/y operands of "
-             "the q120 products and the operands of the complex-vector kernels. Documented overwriting variants are the only exceptions.",
+             "the q120 products and the operands of the complex-vector kernels; every DFT-space entry point also with all its buffers carved back to back out of one arena (forward / reverse order), so that sources adjacent to the output are covered. Documented overwriting variants are the only exceptions.",
         note="cbmc 6.11; a source used as scratch and restored exactly on every path is indistinguishable sequentially",
         technique="CBMC bounded model checking (SAT) of snapshot equality on exactly-sized heap objects, module from the real fill_module_precomp; native replay",
         ref="DESIGN.md 4/C18"),
@@ -163,7 +163,7 @@ CLAIMS = {
     "C16": dict(
         text="Direct pipelines decided end to end on the real code: rotate->automorphism->add->normalize (bit-precise, symbolic data and p1/p2, both cpu flags) against the "
              "digits of the ring expression in 128-bit arithmetic; NTT120 vec_znx_dft->vec_znx_idft/_tmp_a returning exactly the input for every int64 coefficient (integer "
-             "domain, by sign class, incl. zero-extension/truncation); FFT64 pipelines of 3-4 calls (svp and vmp chains) as exact real polynomials. Arbitrary programs are "
+             "domain, by sign class, incl. zero-extension/truncation); add_small2->big rotate->big (range) normalize with fewer/as many/more output limbs than the big vector (bit-precise); FFT64 pipelines of 3-4 calls (svp and vmp chains) as exact real polynomials. Arbitrary programs are "
              "covered only by the compositional argument over C01-C03/C05/C08/C09 within their bounds.",
         note="cbmc 6.11 + vcalg; fixed pipelines at N<=8; no random program generation; mixed FFT64-product + integer-tail pipelines not executed end to end",
         technique="CBMC bounded model checking (SAT) for the integer pipeline; CBMC symbolic execution + vcalg integer/real domains for the NTT120 and FFT64 pipelines; native replay",
